@@ -36,6 +36,15 @@ func runC04(c *Check) {
 		return
 	}
 	c.ruleNoMakeLenThenAppend("R7", "client", "spynode")
+	c.ruleConfirmedStateComplete("R8")
+	// R9 the proof's codec: a stored / transmitted confirmation is decoded with the proof it was written with
+	if cp := c.P.CodecPkg("client"); cp != nil {
+		for _, pr := range codecPairsIn(cp, "Serialize", "Deserialize") {
+			if pr.Name == "MerkleProof" {
+				c.compareCodecPair("R9", "client", pr)
+			}
+		}
+	}
 	merkleValid := condEdge(func(cd Cond) (bool, bool) {
 		if cd.Call != nil && cd.Call.Call.IsInvoke() && cd.Call.Call.Method.Name() == "IsMerkleRootValid" {
 			return true, true
